@@ -141,6 +141,22 @@ def faults(wb):
                             s.cell(row=r, column=a1 + 1).value = s.cell(row=r, column=a0 + ci).value
                         s.defined_names[fname].attr_text = f"'{title}'!${get_column_letter(a0)}${b0}:${get_column_letter(a1 + 1)}${b1}"
                     out.append((f'duplicate column {title}!{fname}[{hdr[ci]}]', dupcol, 'reject'))
+    # well-formed variants: a pump tab referenced more than once in the pipe table (the loader's docstring allows re-using pump tabs)
+    for ws in wb.worksheets:
+        if 'pipeline' in ws.title.lower() and 'pipe_table' in ws.defined_names:
+            addr = ws.defined_names['pipe_table'].attr_text.split('!')[1].replace('$', '')
+            c0, r0, c1, r1 = range_boundaries(addr)
+            rows = [r for r in range(r0 + 1, r1 + 1) if ws.cell(row=r, column=c0).value is not None]
+            names = [ws.cell(row=r, column=c0).value for r in rows]
+            prefs = [v for v in names if isinstance(v, str) and 'pump' in v.lower()]
+            interior = [r for r, v in zip(rows[1:-1], names[1:-1]) if not (isinstance(v, str) and 'pump' in v.lower())]
+            for pref in prefs[:2]:
+                for k in (1, 2):
+                    if len(interior) >= k:
+                        def reuse(w, title=ws.title, rs=tuple(interior[:k]), c=c0, pref=pref):
+                            for r in rs:
+                                w[title].cell(row=r, column=c).value = pref
+                        out.append((f'pump tab {pref!r} used {k} more time(s) (rows {interior[:k]})', reuse, 'load'))
     # dangling pump references
     for ws in wb.worksheets:
         if 'pipeline' in ws.title.lower() and 'pipe_table' in ws.defined_names:
